@@ -127,6 +127,9 @@ func genGraphSpec(r *Rand) GraphSpec {
 	if s.Kind == "grammar" {
 		s.G = genGrammar(r, &genOpts{MaxNodes: 12, Alphabet: "ab", Trims: true, MemoChance: 35, Names: true, Rich: r.Chance(1, 3), User: true, Prebuilt: true})
 		s.Interp = r.Bool()
+		if !hasRich(s.G) && r.Chance(1, 6) {
+			s.G.translit('b', []string{"é", "世"}[r.Intn(2)]) // non-ASCII alphabet
+		}
 		n := len(s.G.Nodes)
 		s.Order = make([]int, n)
 		for i := range s.Order {
